@@ -11,7 +11,7 @@ import (
 func init() {
 	Registry["C22"] = RuleDef{Module: ".", Run: runC22,
 		Technique:   "bounds prover on returned indices (return-value range obligations), signed-to-unsigned conversion obligations, index safety of the AZ match table",
-		Explanation: "Decides for the closures returned by PreferReplicaNodeSelector, AZAffinityNodeSelector and AZAffinityReplicasAndPrimaryNodeSelector (R22a) that every returned value is the constant -1, a value handed through from pickAZ, or an index proved within [0, len(nodes)) on every path (modulo results, start offsets, constant 0 under a non-empty list), (R22b) that every conversion of a signed value to an unsigned type inside them is applied to a value proved non-negative (an unguarded conversion of len(nodes)-start wraps around for short lists), and (R22c) that pickAZ indexes the node list and its fixed-size match table within bounds and never divides by zero. (R22f) every index expression inside a selector closure is proved in bounds (a selector may be handed an empty node list).",
+		Explanation: "Decides for the closures returned by PreferReplicaNodeSelector, AZAffinityNodeSelector and AZAffinityReplicasAndPrimaryNodeSelector (R22a) that every returned value is the constant -1, a value handed through from pickAZ, or an index proved within [0, len(nodes)) on every path (modulo results, start offsets, constant 0 under a non-empty list), (R22b) that every conversion of a signed value to an unsigned type inside them is applied to a value proved non-negative (an unguarded conversion of len(nodes)-start wraps around for short lists), and (R22c) that pickAZ indexes the node list and its fixed-size match table within bounds and never divides by zero. (R22f) every index expression inside a selector closure is proved in bounds (a selector may be handed an empty node list). (R22g) the AZ matcher (newAZSelector / pickAZ) is used only by the AZ-affinity selectors and with the caller's own AZ, never to build the any-replica selector.",
 		NotDecided:  "that a same-AZ replica is preferred and that rotation is fair; that the match table's contents are valid indices (array contents are not tracked)."}
 }
 
@@ -145,6 +145,19 @@ func runC22(r *Report) {
 		r.Ob("R22a", fn, "delegates-to-newAZSelector", fn.Pos(), ok, "AZAffinityNodeSelector is built by newAZSelector")
 	}
 	r.Anchor("R22a", "selector closures", len(closures) == 3)
+	// R22g: AZ matching is only for the AZ-affinity selectors, and with the caller's own AZ: a selector
+	// that is documented to rotate over ANY replica must not be built from the AZ matcher (an empty
+	// "AZ" matches every node whose zone is unknown, and the matcher looks at 8 candidates only)
+	for _, cs := range p.Callers("rueidis.newAZSelector") {
+		caller := FuncName(TopFunc(cs.Fn))
+		_, isParam := Strip(cs.Call().Common().Args[0]).(*ssa.Parameter)
+		r.ObSite("R22g", cs, "az-matcher-only-for-az-affinity", caller == "rueidis.AZAffinityNodeSelector" && isParam, "newAZSelector is used only by AZAffinityNodeSelector, with the AZ it was given; called from "+caller)
+	}
+	for _, cs := range p.Callers("rueidis.pickAZ") {
+		caller := FuncName(TopFunc(cs.Fn))
+		ok := caller == "rueidis.newAZSelector" || caller == "rueidis.AZAffinityReplicasAndPrimaryNodeSelector"
+		r.ObSite("R22g", cs, "az-matcher-only-for-az-affinity", ok, "pickAZ is used only by the AZ-affinity selectors; called from "+caller)
+	}
 	for _, cl := range closures {
 		c := NewBCtx(cl)
 		paramLowerFromCallers(p, cl, c)
